@@ -58,4 +58,119 @@ contract(SO + '::ScipyOptimizeDriver.run@loopbody(con_dict)', ['C21'],
              # loop-carried state: the next iteration still sees the whole constraint's bounds
              "same_object(result['upper'], upper) and same_object(result['lower'], lower)"],
          modifies=['constraints'], name=SO + '::ScipyOptimizeDriver.run[dict-constraint loop body]',
-         defs={'opaque_classes': ['WeakMethodWrapper']}, native=_native_loopbody, sampler=_sample_loopbody)
+         defs={'opaque_classes': ['WeakMethodWrapper']}, native=_native_loopbody, sampler=_sample_loopbody,
+         canaries=[('bounds rebound to their own element inside the loop (the defect repaired in /repo)',
+                    ('upper_j = upper[j] if isinstance(upper, np.ndarray) else upper\n                        lower_j = lower[j] if isinstance(lower, np.ndarray) else lower\n\n                        dblcon = (upper_j < INF_BOUND) and (lower_j > -INF_BOUND)',
+                     'upper = upper[j] if isinstance(upper, np.ndarray) else upper\n                        lower = lower[j] if isinstance(lower, np.ndarray) else lower\n\n                        dblcon = (upper < INF_BOUND) and (lower > -INF_BOUND)'),
+                    'post', SO + '::ScipyOptimizeDriver.run'),
+                   ('two-sidedness decided from the upper bound only', ('dblcon = (upper_j < INF_BOUND) and (lower_j > -INF_BOUND)', 'dblcon = (upper_j < INF_BOUND)'), 'post', SO + '::ScipyOptimizeDriver.run'),
+                   ('second registration flagged single-sided', ("dcon_dict['args'] = [name, True, j]", "dcon_dict['args'] = [name, False, j]"), 'post', SO + '::ScipyOptimizeDriver.run')])
+
+
+# ---- _confunc: sign <-> feasibility of exactly element idx ------------------------------------------------------
+def sdriver(equals):
+    bd = lambda: DictT({'constraint': DictT({'con': Arr('n')})})
+    return Obj('ScipyOptimizeDriver', _exc_info=None, _con_cache=DictT({'con': Arr('n')}),
+               _cons=DictT({'con': DictT({'equals': equals})}),
+               _autoscaler=Obj('Autoscaler', _scaled_lower=bd(), _scaled_upper=bd(), _scaled_equals=bd()))
+
+
+def B(which, obj='self', i='idx'):
+    return "%s._autoscaler._scaled_%s['constraint']['con'][%s]" % (obj, which, i)
+
+
+LO, UP, EQ = B('lower'), B('upper'), B('equals')
+CV = "self._con_cache['con'][idx]"
+
+contract(SO + '::ScipyOptimizeDriver._confunc', ['C21'],
+         dict(self=sdriver(OneOf(None, OpaqueT('equals'))), x_new=Arr('nx'), name='con', dbl=OneOf(False, True), idx=Int(0, None)),
+         requires=['idx < n'],
+         ensures=[
+             # equality constraints: zero exactly at the requested value
+             "implies(self._cons['con']['equals'] is not None, result == %s - %s)" % (CV, EQ),
+             # inequality: scipy's 'satisfied when >= 0' is the bound of THIS element
+             "implies(self._cons['con']['equals'] is None and (dbl or %s <= -INF_BOUND), iff(result >= 0, %s <= %s))" % (LO, CV, UP),
+             "implies(self._cons['con']['equals'] is None and not dbl and %s > -INF_BOUND, iff(result >= 0, %s >= %s))" % (LO, CV, LO)],
+         modifies=[], inline={'get_bounds_scaling'}, name=SO + '::ScipyOptimizeDriver._confunc', returns=Real(),
+         canaries=[('lower-bound side returns the upper-bound residual', ('return cons[name][idx] - lower', 'return upper - cons[name][idx]'), 'post'),
+                   ('bounds of element 0 used for every element', ('upper = upper_con[name][idx]', 'upper = upper_con[name][0]'), 'post')])
+
+# lemma over contracts: all values scipy drives to >= 0 for element j  ==>  element j is within its finite bounds
+LJ, UJ = B('lower', 'driver', 'j'), B('upper', 'driver', 'j')
+contract('verif:contracts/harness.py::registered_constraint_values', ['C21'],
+         dict(driver=sdriver(None), x=Arr('nx'), name='con', j=Int(0, None), both_sides=Bool()),
+         requires=['j < n'],
+         ensures=["implies(iff(both_sides, %s < INF_BOUND and %s > -INF_BOUND) and result[0] >= 0 and result[1] >= 0, "
+                  "(%s <= -INF_BOUND or driver._con_cache['con'][j] >= %s) and (%s >= INF_BOUND or driver._con_cache['con'][j] <= %s))" % (UJ, LJ, LJ, LJ, UJ, UJ)],
+         modifies=[], name='lemma:registered_constraints_imply_feasible')
+
+
+# ---- new-style constraints (trust-constr, COBYQA, ...): the NonlinearConstraint branch of run -------------------
+# Fragment = true branch of `if opt in _supports_new_style and _use_new_style:`; `constraints` is the growing list
+# handed to scipy, modelled by ghost state: n_app = number of appended objects; every append is checked (as a
+# precondition of the assumed list.append) to be THE constraint of element number n_app with that element's clipped
+# bounds, so after the statement every element 0..size-1 has been handed over exactly once, in order.
+def _app_ghost(it, env, res):
+    from pyvc.values import scalar_arith
+    it.ctx.ghost['n_app'] = scalar_arith('+', it.ctx.ghost['n_app'], 1)
+
+
+CLIPL = '(lb_[%s] if lb_[%s] > -INF_BOUND else -INF_BOUND)'
+CLIPU = '(ub_[%s] if ub_[%s] < INF_BOUND else INF_BOUND)'
+LBUB = {'lb_': '(equals if equals is not None else lower)', 'ub_': '(equals if equals is not None else upper)'}
+
+
+def sub(s):
+    for k, v in LBUB.items():
+        s = s.replace(k, v)
+    return s
+
+
+N = "ghost('n_app')"
+contract(SO + '::ScipyOptimizeDriver.run@ifbody(NonlinearConstraint)', ['C21'],
+         dict(equals=OneOf(None, Arr('size')), lower=Arr('size'), upper=Arr('size'), linear=False, lincongrad=None, name='con',
+              self=Obj('ScipyOptimizeDriver', _con_idx=DictT({'con': 0})), size=Size('size'), con=None, constraints=Obj('list')),
+         requires=['size >= 1'],
+         ensures=[N + ' == size'],
+         invariants={'loop0': [N + ' == _k']},
+         modifies=[], name=SO + '::ScipyOptimizeDriver.run[new-style nonlinear constraints]',
+         ghost_init={'n_app': 0},
+         defs={'opaque_classes': ['WeakMethodWrapper']},
+         assumed={'signature_extender': Assumed(returns_expr="('ext', arg0, arg1)", note='signature_extender(fn, extra_args): calls fn(x, *extra_args)'),
+                  'NonlinearConstraint': Assumed(returns_expr="('nlc', kw_lb, kw_ub, kw_fun, kw_jac)", note='scipy.optimize.NonlinearConstraint(fun, lb, ub, jac)'),
+                  'LinearConstraint': Assumed(returns_expr="('lc', kw_lb, kw_ub)"),
+                  'constraints.append': Assumed(
+                      ghost=_app_ghost,
+                      requires=["arg0[0] == 'nlc' and arg0[3][2][0] == 'con' and arg0[3][2][1] is False and arg0[3][2][2] == %s" % N,
+                                "arg0[4][2][2] == %s" % N,
+                                sub("arg0[1] == %s and arg0[2] == %s" % (CLIPL % (N, N), CLIPU % (N, N)))],
+                      note='list.append on the constraint list handed to scipy.optimize.minimize')},
+         canaries=[('constraint appended once after the element loop (the defect repaired in /repo)',
+                    ("WeakMethodWrapper(self, '_congradfunc'), args)\n                            )\n                            constraints.append(con)",
+                     "WeakMethodWrapper(self, '_congradfunc'), args)\n                            )\n                    constraints.append(con)"),
+                    'inv', SO + '::ScipyOptimizeDriver.run'),
+                   ('upper bound not clipped per element', ('ub_j = np.minimum(ub[j], INF_BOUND)', 'ub_j = np.minimum(ub[0], INF_BOUND)'), 'pre', SO + '::ScipyOptimizeDriver.run')])
+
+
+# ---- _con_val_func (new-style optimizers): the value handed to scipy belongs to the point scipy asked about ------
+# scipy's trust-constr asks for the constraints at a new point BEFORE the objective; the driver must not answer
+# from the cache of the previous point (defect repaired in /repo: success was reported at infeasible designs).
+def _eval_ghost(it, env, res):
+    it.ctx.ghost['evaluated_at'] = it.last_assumed_args[0]
+
+
+contract(SO + '::ScipyOptimizeDriver._con_val_func', ['C21'],
+         dict(self=Obj('ScipyOptimizeDriver', options=DictT({'optimizer': OneOf('trust-constr', 'COBYQA')}),
+                       _con_cache=DictT({'con': Arr('n')}), _con_cache_x=OneOf(None, Arr('nx'))),
+              x_new=Arr('nx'), name='con', dbl=False, idx=Int(0, None)),
+         requires=['idx < n'],
+         ensures=["result == self._con_cache['con'][idx]",
+                  # cache coherence: the cache the value was read from was computed at exactly x_new
+                  'self._con_cache_x is not None and len(self._con_cache_x) == nx and all(self._con_cache_x[i] == x_new[i] for i in range(nx))'],
+         modifies=['self._con_cache', 'self._con_cache_x'], returns=Real(),
+         assumed={'self._objfunc': Assumed(modifies=["self._con_cache['con']"], sets={'self._con_cache_x': Arr('nx')}, ghost=_eval_ghost,
+                                           ensures=['self._con_cache_x is not None and len(self._con_cache_x) == len(arg0) and all(self._con_cache_x[i] == arg0[i] for i in range(len(arg0)))'],
+                                           note='_objfunc(x): runs the model at x, refreshes _con_cache and records x in _con_cache_x (its own bookkeeping lines are not under contract)')},
+         name=SO + '::ScipyOptimizeDriver._con_val_func',
+         canaries=[('stale cache served when scipy asks for a new point first (the defect repaired in /repo)',
+                    ('elif self._con_cache_x is None or not np.array_equal(self._con_cache_x, x_new):', 'elif self._con_cache_x is None:'), 'post')])
